@@ -196,6 +196,9 @@ func init() {
 
 	// ---- fmt ----
 	sprintf := func(x *Exec, format string, args []Value) *Str {
+		if r := x.symSprintf(format, args); r != nil {
+			return r
+		}
 		nat := make([]interface{}, len(args))
 		for i, a := range args {
 			n, ok := x.toNative(a)
@@ -484,6 +487,11 @@ func init() {
 	})
 	reg("github.com/gammazero/nexus/v3/wamp.secureInt63n", func(x *Exec, g *G, a []Value) Value {
 		n := a[0].(*Term)
+		if x.concRandom {
+			// harness asked for concrete, pairwise distinct "random" ids
+			x.concRandN++
+			return MkBV(64, 4000+x.concRandN*7)
+		}
 		v := x.inputEnv("secureInt63n", "i64", SBV64)
 		x.assume(And(Sle(MkBV(64, 0), v), Slt(v, n)))
 		if !x.allowIDCollide {
@@ -503,8 +511,20 @@ func init() {
 	})
 	reg("crypto/rand.Read", func(x *Exec, g *G, a []Value) Value {
 		s := a[0].(SliceV)
+		cur := make([]*Term, len(s.A))
 		for i := range s.A {
-			s.A[i] = x.inputEnv(fmt.Sprintf("crypto/rand[%d]", i), "u8", SBV8)
+			cur[i] = x.inputEnv(fmt.Sprintf("crypto/rand[%d]", i), "u8", SBV8)
+			s.A[i] = cur[i]
+		}
+		// freshness assumption: a read of >= 16 random bytes differs from every
+		// earlier read of the same length
+		if len(cur) >= 16 {
+			for _, o := range x.randReads {
+				if len(o) == len(cur) {
+					x.assume(Not(bytesEq(cur, o)))
+				}
+			}
+			x.randReads = append(x.randReads, cur)
 		}
 		return TupleV{MkBV(64, uint64(len(s.A))), Iface{}}
 	})
@@ -601,4 +621,61 @@ func (x *Exec) onceState(p *Value) *int {
 	n := new(int)
 	x.onces[p] = n
 	return n
+}
+
+
+// symSprintf handles formats made of %s / %v / %d verbs when some string
+// arguments are symbolic (numbers must be concrete). Returns nil otherwise.
+func (x *Exec) symSprintf(format string, args []Value) *Str {
+	anySym := false
+	for _, a := range args {
+		if iv, ok := a.(Iface); ok {
+			if s, ok := iv.V.(*Str); ok && !s.IsConc() && !s.Opaque {
+				anySym = true
+			}
+		}
+	}
+	if !anySym {
+		return nil
+	}
+	res := MkStr("")
+	ai := 0
+	for i := 0; i < len(format); i++ {
+		c := format[i]
+		if c != '%' {
+			res = StrConcat(res, MkStr(string(c)))
+			continue
+		}
+		i++
+		if i >= len(format) {
+			return nil
+		}
+		v := format[i]
+		if v == '%' {
+			res = StrConcat(res, MkStr("%"))
+			continue
+		}
+		if ai >= len(args) || (v != 's' && v != 'v' && v != 'd') {
+			return nil
+		}
+		a := args[ai]
+		ai++
+		iv, ok := a.(Iface)
+		if !ok {
+			return nil
+		}
+		if s, ok := iv.V.(*Str); ok {
+			if s.Opaque {
+				return nil
+			}
+			res = StrConcat(res, s)
+			continue
+		}
+		n, ok := x.toNative(a)
+		if !ok {
+			return nil
+		}
+		res = StrConcat(res, MkStr(fmt.Sprintf("%"+string(v), n)))
+	}
+	return res
 }
